@@ -515,6 +515,7 @@ def C18(rep, prog, tier):
     rep.explanation = ("C18: RANK.min (accumulator update table, scope of the satisfaction test), ACCEPT.decision, MARG.bits, "
                        "COND.filter, TPO.order, WORLD.literals on the ranking-function operations")
     ex = Explorer(prog, rep)
+    _run(rep, preocf.memo_audit, ex, "RANK.min", kinds=("text",))
     _run(rep, preocf.world_literals, ex)
     _run(rep, preocf.rank_min, ex)
     _run(rep, preocf.accept_decision, ex)
@@ -536,6 +537,7 @@ def C20(rep, prog, tier):
     _run(rep, preocf.impacts_accept, ex)
     _run(rep, preocf.impacts_factories, ex)
     _run(rep, preocf.format_agree, ex)
+    _run(rep, preocf.memo_audit, ex, "STATE.pickled")
 
 
 def C10(rep, prog, tier):
